@@ -310,6 +310,7 @@ class FortranAST:
                         if parent_scope is not None:
                             parent_scope.add_child(child)
                             child.update_fqsn(parent_scope.FQSN)
+                            self.apply_visibility(child)
                     include_ast.none_scope = parent_scope
                     inc.scope_objs = added_entities
             elif inc.file is not None:
@@ -320,6 +321,20 @@ class FortranAST:
                         parent_scope.children.remove(obj)
                 inc.file = None
                 inc.scope_objs = []
+
+    def apply_visibility(self, obj):
+        """PUBLIC/PRIVATE statements of this file naming an entity brought in by INCLUDE
+
+        They were read before the entity was known (see ``close_file``)."""
+        # What the entity declares itself, whatever an earlier includer has set
+        if not hasattr(obj, "declared_vis"):
+            obj.declared_vis = obj.vis
+        obj.set_visibility(obj.declared_vis)
+        fqsn = obj.FQSN.lower()
+        if any(name.lower() == fqsn for name in self.private_list):
+            obj.set_visibility(-1)
+        if any(name.lower() == fqsn for name in self.public_list):
+            obj.set_visibility(1)
 
     def resolve_links(self, obj_tree, link_version):
         # Type lookups are cached on first use, the type may since have been
